@@ -73,6 +73,20 @@ func moduleMembers(m *object.Module) ([]string, error) {
 	return out, nil
 }
 
+// moduleHook names the Go function a module runs when the module itself is called (regexp("a+")), "" if it is not
+// callable. The field is unexported; it is read, never written.
+func moduleHook(m *object.Module) string {
+	fv := reflect.ValueOf(m).Elem().FieldByName("callable")
+	if !fv.IsValid() || fv.Kind() != reflect.Func || fv.IsNil() {
+		return ""
+	}
+	f := runtime.FuncForPC(fv.Pointer())
+	if f == nil {
+		return "?"
+	}
+	return f.Name()
+}
+
 // ---------------------------------------------------------------- object graph
 
 type gnode struct {
